@@ -18,7 +18,7 @@ def pKind : P Nat := do
 def pEv : P Ev := do
   let t ← tok
   if t = "C" then do let n ← nat; let m ← nat; pure (.cfg n (m ≠ 0))
-  else if t = "S" then do let a ← nat; let b ← nat; pure (.sender a b)
+  else if t = "S" then do let a ← nat; let b ← nat; let c ← nat; pure (.sender a b c)
   else if t = "G" then do let a ← nat; let b ← nat; let c ← nat; pure (.grant a b c)
   else if t = "F" then do
     let s ← nat; let l ← nat; let k ← tok
@@ -59,11 +59,12 @@ def cmonFor : String → List CMon
   | "C04" => [logsAgree, termsMonotone, retainedAgree]
   | "C05" => [commitLeLast]
   | "C08" => [clientOutcomes, barrierOK]
+  | "C09" => [verifyFresh]
   | "C12" => [converged]
   | "C17" => [allResolved]
   | "C18" => [notifyAlternates]
   | _ => [oneSenderPerTerm, oneGrantPerTerm, streamsAgree, streamsInOrder, clientOutcomes, barrierOK, ackedSurvive,
-          logsAgree, termsMonotone, retainedAgree, commitLeLast, converged, allResolved, notifyAlternates]
+          logsAgree, termsMonotone, retainedAgree, commitLeLast, converged, allResolved, notifyAlternates, verifyFresh]
 
 def cJudgeWith (ms : List CMon) (_caseLine implLine : String) : String :=
   match parseHist implLine with
